@@ -247,11 +247,14 @@ def run_driver_sharded(driver, requests, shards=8, timeout=1800):
 # known findings
 # --------------------------------------------------------------------------
 def load_findings(prop):
-    path = os.path.join(VERIF, "known_findings.json")
+    """Known findings of one property: known_findings/<ID>.json
+    {"findings": [{"id", "status": "open"|"fixed", "what", "witness", "classifier"}], "fixed": ["fixed: property=... <commit> <what>"]}
+    (known_findings.json at the top level is the generated aggregate for readers)."""
+    path = os.path.join(VERIF, "known_findings", f"{prop}.json")
     if not os.path.exists(path):
         return []
     data = json.load(open(path))
-    return [f for f in data.get("findings", []) if f["property"] == prop]
+    return [dict(f, property=prop) for f in data.get("findings", [])]
 
 
 # --------------------------------------------------------------------------
